@@ -9,6 +9,7 @@
      PLit s     unquoted literal (value after backslash removal, no leading ~)
      PSgl s     '...'
      PDbl vs    "..." whose inner parts expanded to the values vs (vs = [] for "")
+     PDblMix is "..." whose inner parts are values and list expansions ($@, ${a[@]}): "a$@b"
      PExp v     unquoted $x / ${x} / $(..) whose value is v: subject to splitting
      PAt es     "$@" alone in double quotes, es the positional parameters
      PStar es   "$*" alone in double quotes
@@ -41,6 +42,8 @@ Definition ifs_sep (ifs : str) : str := match ifs with [] => [] | r :: _ => [r] 
 Definition ifs_join (ifs : str) (l : list str) : str := join (ifs_sep ifs) l.
 
 (* --- the word --------------------------------------------------------------- *)
+Inductive ditem := DVal (v : str) | DList (es : list str).
+
 Inductive part :=
 | PLit (s : str)
 | PSgl (s : str)
@@ -48,7 +51,8 @@ Inductive part :=
 | PExp (v : str)
 | PAt (es : list str)
 | PStar (es : list str)
-| PUList (es : list str).
+| PUList (es : list str)
+| PDblMix (items : list ditem).
 
 (* --- Impl: wordFields --------------------------------------------------------- *)
 (* fields / curField hold the values of the fieldParts; wsDelim as in the code *)
@@ -108,6 +112,29 @@ Fixpoint ulist_loop (ifs : str) (first : bool) (es : list str) (s : st) : st :=
       ulist_loop ifs false rest (split_add ifs e s1)
   end.
 
+(* the DblQuoted case: the loop over the inner parts with its two flags
+   (emptyList, nonEmpty), then the switch *)
+Definition str_nonempty (v : str) : bool := match v with [] => false | _ => true end.
+
+Fixpoint dbl_loop (items : list ditem) (s : st) (empty_list non_empty : bool) : st * bool * bool :=
+  match items with
+  | [] => (s, empty_list, non_empty)
+  | DVal v :: rest => dbl_loop rest (add_part s v) empty_list (non_empty || str_nonempty v)
+  | DList es :: rest =>
+      dbl_loop rest (at_loop true es s)
+               (empty_list || match es with [] => true | _ => false end)
+               (non_empty || match es with [] => false | _ => true end)
+  end.
+
+Definition dbl_mix (items : list ditem) (s : st) : st :=
+  match dbl_loop items s false false with
+  | (s', empty_list, non_empty) =>
+      if non_empty then s'
+      else if empty_list then mkst (fields s') (firstn (length (cur s)) (cur s')) (wsd s')   (* curField[:start] *)
+      else if Nat.eqb (length (cur s')) (length (cur s)) then add_part s' []
+      else s'
+  end.
+
 Definition do_part (ifs : str) (i0 : bool) (p : part) (s : st) : st :=
   match p with
   | PLit v => if i0 then add_part (add_part s []) v else add_part s v   (* i == 0: the (empty) ~user prefix part *)
@@ -118,6 +145,7 @@ Definition do_part (ifs : str) (i0 : bool) (p : part) (s : st) : st :=
   | PAt es => at_loop true es s
   | PStar es => add_part s (ifs_join ifs es)
   | PUList es => ulist_loop ifs true es s
+  | PDblMix items => dbl_mix items s
   end.
 
 Fixpoint parts_loop (ifs : str) (i0 : bool) (ps : list part) (s : st) : st :=
@@ -158,6 +186,22 @@ Fixpoint ulist_syms (ifs : str) (first : bool) (es : list str) : list sym :=
       ++ map (classify ifs) e ++ ulist_syms ifs false rest
   end.
 
+(* inside double quotes: a value is quoted text; a list expansion gives its elements,
+   the first and last joining their neighbours *)
+Definition item_syms (d : ditem) : list sym :=
+  match d with
+  | DVal v => Q :: map C v
+  | DList [] => []
+  | DList (e :: rest) => Q :: map C e ++ at_syms rest
+  end.
+Definition item_empty (d : ditem) : bool :=
+  match d with DVal [] => true | DList [] => true | _ => false end.
+Definition item_empty_list (d : ditem) : bool :=
+  match d with DList [] => true | _ => false end.
+(* "$@" without parameters makes the quoted string vanish if nothing else in it is non-empty *)
+Definition dbl_vanishes (items : list ditem) : bool :=
+  existsb item_empty_list items && forallb item_empty items.
+
 Definition part_syms (ifs : str) (p : part) : list sym :=
   match p with
   | PLit v => map C v
@@ -168,6 +212,8 @@ Definition part_syms (ifs : str) (p : part) : list sym :=
   | PAt (e :: rest) => Q :: map C e ++ at_syms rest
   | PStar es => Q :: map C (ifs_join ifs es)
   | PUList es => ulist_syms ifs true es
+  | PDblMix items => if dbl_vanishes items then []
+                     else match items with [] => [Q] | _ => flat_map item_syms items end
   end.
 
 Definition flatten (ifs : str) (ps : list part) : list sym := flat_map (part_syms ifs) ps.
@@ -272,7 +318,7 @@ Definition in_scope (ps : list part) : bool := forallb lit_nonempty ps.
 (* quote removal: a word without unquoted expansions is exactly one field, the
    concatenation of its pieces *)
 Definition no_split_part (p : part) : bool :=
-  match p with PLit _ | PSgl _ | PDbl _ | PStar _ => true | _ => false end.
+  match p with PLit _ | PSgl _ | PDbl _ | PStar _ => true | _ => false end.  (* PDblMix: see C22_at_* *)
 Definition part_text (ifs : str) (p : part) : str :=
   match p with
   | PLit v | PSgl v => v
